@@ -24,6 +24,7 @@ EXPLANATION = (
     "C13.9: the receiver-model helpers accept the inclusive edge G = 0 dB as they accept G = 20 dB (differential on the set of raising "
     "exits: a presence test written as a truthiness test adds one). Not decided: numerical agreement/monotonicity/quad accuracy.")
 EXPLANATION += (" Added after the audit wave: C13.5 the threshold returned by optimum_threshold equals the closed-form root as a rational function (difference zero after clearing denominators: any rearrangement is accepted) and no sum it divides by vanishes identically for S1 = S0 (equal variances are the midpoint case of the statement); C13.3 a spelling of `decision` that the validation of ppm.BER_analizer lets through ('Hard', 'SOFT') is refused with ValueError or computed like its lower-case form.")
+EXPLANATION += (' Second audit wave: C13.10 (open known finding) the soft-decision error probability is not formed as 1 - quad(...) with an absolute tolerance (everything below 1.49e-8 is quadrature noise); C13.3 accepts the complement integrated directly (expm1/log1p/exp(k log w) are folded).')
 TRUSTED = ["scipy.special.erfc, scipy.integrate.quad semantics", "numpy.vectorize/linspace/argmin", "scipy.constants h, k, e, c", "utils.idb/idbm/Q (C19)"]
 
 H_ = Form.atom(("c", "scipy.constants.h"))
@@ -558,16 +559,36 @@ def _check_soft(ctx, fi, it, v, node, case, dmu, s0, s1, M, factor):
     x = S("x")
     integ = Interp(ctx.pkg).call_funcv(q.args[0], [x])
     want_int = soft_integrand(dmu, s0, s1, x, M)
-    ctx.check("C13.3", isinstance(integ, Form) and integ == want_int, fi, q.node, f"{case}: soft-decision integrand", "(1-Q((dmu+s1*x)/s0))^(M-1)*exp(-x^2/2)",
+    # either the probability of a correct symbol is integrated and subtracted from one, or its complement is integrated directly
+    gauss = mk_fn("exp", [-x * x / 2])
+    complement = isinstance(integ, Form) and integ == gauss - want_int
+    ctx.check("C13.3", isinstance(integ, Form) and (integ == want_int or complement), fi, q.node, f"{case}: soft-decision integrand", "(1-Q((dmu+s1*x)/s0))^(M-1)*exp(-x^2/2) or its complement",
               f"integrand {integ!r} differs from {want_int!r}"[:700])
     lo, hi = q.args[1] if len(q.args) > 1 else None, q.args[2] if len(q.args) > 2 else None
     inf = Form.atom(("c", "inf"))
     ctx.check("C13.3", isinstance(lo, Form) and isinstance(hi, Form) and lo == -inf and hi == inf, fi, q.node, f"{case}: integration limits", "(-inf, inf)", "integration limits are not (-inf, inf)")
     I0 = Form.atom(("idx", q.result, Form.num(0)))
-    want = factor * (1 - I0 / fpow(2 * PI, HALF))
+    want = factor * (1 - I0 / fpow(2 * PI, HALF)) if not complement else factor * I0 / fpow(2 * PI, HALF)
     if v != want and v == factor * mk_fn("max", [1 - I0 / fpow(2 * PI, HALF), Form.num(0)]):
         want = v          # the symbol error probability floored at 0 (it is one; quadrature error can leave it at -1e-17)
     ctx.check("C13.3", v == want, fi, node, f"{case}: BER = M/(2(M-1))*(1 - I/sqrt(2 pi))", "prefactor and symbol->bit factor", f"returns {v!r}, not M/(2(M-1))*(1 - quad(...)[0]/sqrt(2*pi))"[:500])
+    # C13.10 the error probability is formed as ONE MINUS a quadrature that is accurate to an absolute tolerance (scipy's default
+    # epsabs = 1.49e-8): every error probability below that tolerance is quadrature noise.  For s1 > s0 the mass that is missing
+    # from 1 is a sharp step deep in the Gaussian tail which quad never resolves - the M = 2 value is off Q(mu/sqrt(s0^2+s1^2))
+    # by tens of percent, soft exceeds hard, and the value rises with mu.  Holds when the complement itself is integrated or the
+    # absolute tolerance is switched off (epsabs = 0) with the tail probability as integrand.
+    kw = dict(q.kwargs) if getattr(q, "kwargs", None) else {}
+    epsabs = kw.get("epsabs")
+    one_minus = not complement
+    loose = epsabs is None or not (isinstance(epsabs, Form) and epsabs.is_zero())
+    label = f"{case}: tail probability not formed as 1 - quadrature with an absolute tolerance"
+    if one_minus and loose:
+        ctx.violation("C13.10", fi, q.node, label,
+                      "the symbol error probability is 1 - quad(...)[0]/sqrt(2 pi) with quad's default absolute tolerance 1.49e-8: values below it are quadrature noise. "
+                      "ppm.theory_BER(6, 0.02, 1, 2, 'soft') = 1.72e-9 where Q(mu/sqrt(s0^2+s1^2)) = 9.94e-10; theory_BER(6.5, 0.02, 1, 8): soft 6.26e-11 > hard 6.05e-11; "
+                      "theory_BER(mu, 0.05, 1, 4, 'soft') rises from 3.55e-8 at mu = 5.26 to 5.53e-8 at mu = 5.28")
+    else:
+        ctx.holds("C13.10", fi, q.node, label, "complement integrated directly / no absolute tolerance")
 
 
 def _eye():
@@ -749,3 +770,4 @@ def run(ctx):
     ctx.require_min("C13.6", 3)
     ctx.require_min("C13.7", 2)
     ctx.require_min("C13.9", 4)
+    ctx.require_min("C13.10", 3)
